@@ -55,7 +55,7 @@ def _facts(fn, node, names):
             facts["TB"] = pol
         if s == "%s.bound" % o or s == "%s.bound is not None" % o:
             facts["OB"] = pol
-        for subj, pref in ((tp, tp), (t, t + ".variance"), (o, o + ".variance"), (t, t), (o, o)):
+        for subj, pref in ((tp, tp), (tp, tp + ".variance"), (t, t + ".variance"), (o, o + ".variance"), (t, t), (o, o)):
             for v in ("covariant", "contravariant", "invariant"):
                 if s == "%s.is_%s()" % (pref, v):
                     (facts["var"] if pol else facts["notvar"])[subj].add(v)
@@ -80,6 +80,11 @@ def _side(expr, names):
     return {t: ("t", False), t + ".bound": ("t", True), o: ("o", False), o + ".bound": ("o", True)}.get(s)
 
 
+def _resolve_all(fn, expr, at):
+    """expr with isinstance-flag locals left as names (they are facts), other single-definition locals expanded"""
+    return expr
+
+
 def r1_containment(repo):
     f = repo.fn(T + "._is_type_arg_contained")
     fn = f.node
@@ -102,6 +107,13 @@ def r1_containment(repo):
             ok = fa["W2"] is True and fa["OB"] is False
             msg = ("an unconditional True is sound only for an unbounded `other` wildcard (star projection); "
                    "guards: %s" % gtxt)
+        elif not any(isinstance(x, (ast.Call, ast.Compare)) for x in ast.walk(_resolve_all(fn, v, r))) and \
+                isinstance(v, (ast.UnaryOp, ast.BoolOp, ast.Name)):
+            # an answer computed from wildcard / bound facts alone (`not (is_wildcard and not t.bound)`): it can be True,
+            # so it needs what an unconditional True needs
+            ok = fa["W2"] is True and fa["OB"] is False
+            msg = ("a fact-only answer `%s` may be True: sound only for an unbounded `other` wildcard (star projection); "
+                   "guards: %s" % (src(v), gtxt))
         elif isinstance(v, ast.Compare) and len(v.ops) == 1 and isinstance(v.ops[0], ast.Eq):
             sides = {_side(v.left, names), _side(v.comparators[0], names)}
             ok = sides == {("t", False), ("o", False)} and fa["W1"] is False and fa["W2"] is False and \
@@ -532,6 +544,74 @@ def r6_transitivity(repo):
     return obs
 
 
+def _ft_variances(repo, init):
+    """{'A': variance text or None, 'R': ...} of the TypeParameter constructions that build a FunctionN constructor,
+    directly in __init__ or in a helper it calls (arguments bound to the helper's parameters)"""
+    from ..repo import FunctionInfo
+
+    def scan(fn_node, binding):
+        out = {}
+        for c in calls_in(fn_node):
+            if call_name(c) != "TypeParameter" or not c.args:
+                continue
+            nm = src(c.args[0])
+            role = "R" if nm in ("'R'", '"R"') else ("A" if nm.startswith(("'A'", '"A"')) else None)
+            if role is None:
+                continue
+            v = kwarg(c, "variance", 1)
+            if v is None or (isinstance(v, ast.Constant) and v.value is None):
+                out.setdefault(role, set()).add(None)
+            elif isinstance(v, ast.Name) and v.id in binding:
+                b = binding[v.id]
+                out.setdefault(role, set()).add(None if b is None or (isinstance(b, ast.Constant) and b.value is None)
+                                                else src(b).split(".")[-1])
+            else:
+                out.setdefault(role, set()).add(src(v).split(".")[-1])
+        return out
+    res = scan(init.node, {})
+    if not res:
+        for c in calls_in(init.node):
+            if not hasattr(c, "_module"):
+                continue
+            try:
+                tgt = repo.resolve_name_expr(c.func, c._module, init)
+            except Exception:
+                tgt = None
+            if isinstance(tgt, FunctionInfo) and tgt.cls is None:
+                a = tgt.node.args
+                names = [x.arg for x in a.args]
+                binding = dict(zip(names[len(names) - len(a.defaults):], a.defaults))
+                for nme, arg in zip(names, c.args):
+                    binding[nme] = arg
+                for k in c.keywords:
+                    binding[k.arg] = k.value
+                res = scan(tgt.node, binding)
+                if res:
+                    break
+    return res
+
+
+def r7_function_types(repo):
+    """Function types are contravariant in their parameters and covariant in their result where the language has
+    declaration-site variance (Kotlin, Scala) and invariant elsewhere; the subtype judgement reads the declared variance
+    of the constructor, so a swapped declaration makes it unsound for function types."""
+    obs = []
+    want = {"src.ir.kotlin_types": {"A": {"Contravariant"}, "R": {"Covariant"}},
+            "src.ir.scala_types": {"A": {"Contravariant"}, "R": {"Covariant"}}}
+    fts = [c for c in repo.classes.values() if c.name == "FunctionType"]
+    for c in sorted(fts, key=lambda c: c.qualname):
+        init = c.methods.get("__init__")
+        if init is None:
+            continue
+        got = _ft_variances(repo, init)
+        exp = want.get(c.module.name, {"A": {None}, "R": {None}})
+        obs.append(Ob("C06-R7", "%s:declared-variance" % c.qualname, _w(init), got == exp,
+                      "FunctionN type parameters: parameters %s, result %s; expected %s / %s"
+                      % (sorted(map(str, got.get("A", []))), sorted(map(str, got.get("R", []))),
+                         sorted(map(str, exp["A"])), sorted(map(str, exp["R"])))))
+    return obs
+
+
 def rules():
     return [
         RuleSpec("C06-R1", "containment direction per governing variance (every return)", 10, r1_containment),
@@ -539,6 +619,7 @@ def rules():
         RuleSpec("C06-R3", "every positive-capable answer of is_subtype/is_assignable is a sound shape", 29, r3_positive),
         RuleSpec("C06-R4", "bounds are consulted (type variables, wildcards, type constructors)", 5, r4_bounds),
         RuleSpec("C06-R6", "transitivity: the nominal judgement recurses through every supertype", 2, r6_transitivity),
+        RuleSpec("C06-R7", "declared variance of the built-in function types", 5, r7_function_types),
         RuleSpec("C06-R5", "equality of types is structural (is_subtype starts from ==)", 4, r5_structural_equality),
     ]
 
